@@ -49,6 +49,16 @@ CLAIMED = {
     note="Partial: the Go runtime's frame accounting (inlining, hidden wrapper frames for value-receiver methods behind interfaces) is trusted, not modelled - observed only through the generated program. Trusted: Coq kernel + vm_compute; c19gen's shape grammar (unrecognised shapes abort, never guessed); Go harness. CallerWithSkipFrameCount(-1) (doc says 'use global', code tests MinInt32) is outside the quantifier; noted in DESIGN.",
     technique="Coq proof over a call-chain table regenerated from the source + generated line-number program",
     design="5 C19"),
+ "C07": dict(
+    text="Partial. Theorems in Coq over the pool-trace model of the event/array pools (which API call takes a pooled object, which gives it back, in code order, for enabled and for level-filtered chains): every complete chain of any nesting, with any hooks, is well-nested and balanced (C07_pool_balanced, C07_filtered_balanced), so Gets = Puts per pool and a warm pool serves it without a single miss and is left as full as before (C07_warm_pool_no_miss). The rest of 'zero allocations' is measured on the real code on every run: testing.AllocsPerRun == 0 for generated chains over the documented allocation-free method set (closures, no reflection) on plain / context+timestamp / level-filtered loggers, in the JSON and the binary_log build; and on freshly emptied pools the first run must allocate exactly the peak demand the model's trace predicts, later runs nothing.",
+    note="Partial because escape analysis, interface boxing and the allocator are not modelled: a method that starts boxing an argument changes no model and is caught only by the AllocsPerRun measurement. Trusted: Coq kernel + vm_compute, the pool-trace model (validated by the demand correspondence), the overlay shim that replaces the two pools by counting ones, Go's testing.AllocsPerRun. Encoded size is kept within the pooled 500-byte buffers' growth history (the property's own restriction).",
+    technique="Coq proof (balanced pool traces, induction on nesting) + AllocsPerRun and pool-miss measurements vs the model's predicted demand, both encodings",
+    design="5 C07"),
+ "C16": dict(
+    text="Theorems in Coq over an executable model of ConsoleWriter.Write / writeFields / writePart (field selection, reserved names, FieldsExclude, sort.Strings or the FieldsOrder comparator with sort modelled as ANY sorted permutation, binary search for the error field, move-to-front, needsQuote, spacing) for ALL events, ALL map iteration orders and ALL option sets: every non-excluded field exactly once; error first then lexical; FieldsOrder names first in that order then lexical; quoting predicate; numbers verbatim; determinism across iteration orders and sort outcomes (comparators proved strict total orders); returns len(p), nil. Tie: events really logged through zerolog then rendered by the real ConsoleWriter under generated option combinations, 3-5 renders each; exact-byte correspondence with the model; independent Go monitors.",
+    note="Standard-library texts (strconv.Quote, time parse/format, fmt %s, json re-marshal, ToUpper, filepath.Rel) are oracles shipped per case as finite tables computed independently of ConsoleWriter; encoding/json's decoding of the event (last duplicate wins) is an oracle. Readings: byte 0x7f is quoted by the code (accepted either way by the monitors); only the final newline is asserted (messages/keys containing a newline are written verbatim by design). Trusted: Coq kernel + vm_compute, the model, the Go harness.",
+    technique="Coq proof (permutation/sortedness reasoning for all iteration orders) + exact-byte correspondence on generated events x options",
+    design="5 C16"),
 }
 
 NOT_YET = {}
